@@ -23,6 +23,8 @@ def main():
         mod = importlib.import_module('vz.props.' + prop.lower())
         run = Run(prop, a.tier, env.SEED)
         if a.replay:
+            if not os.path.isabs(a.replay):      # relative to where ./check was called from
+                a.replay = os.path.join(os.environ.get('VZ_CALLER_DIR', '.'), a.replay)
             with open(a.replay) as f:
                 rep = json.load(f)
             mod.replay(run, rep)
